@@ -58,6 +58,16 @@ class Report:
         self.program_stats: Dict[str, int] = {}
         self.analysed_functions: set = set()
         self.extra_coverage: Dict[str, object] = {}
+        self.analysis_errors: List[str] = []
+
+    def attempt(self, fn, *args, **kw):
+        """Run one rule; an AnalysisError of that rule is recorded (exit 2 unless another rule found a
+        violation) instead of hiding the findings of the other rules."""
+        try:
+            return fn(*args, **kw)
+        except AnalysisError as e:
+            self.analysis_errors.append(f"{getattr(fn, '__name__', fn)}: {e}")
+            return None
 
     # -------------------------------------------------------------- recording
     def ok(self, rule: str, func: str, what: str, loc: str = ""):
@@ -87,7 +97,7 @@ class Report:
         """Fail closed when a rule matched fewer sites than confirmed by hand."""
         n = self.rule_counts.get(rule, 0)
         if n < minimum:
-            raise AnalysisError(f"{rule}: only {n} {what} found, expected at least {minimum} (rule would pass vacuously)")
+            self.analysis_errors.append(f"{rule}: only {n} {what} found, expected at least {minimum} (rule would pass vacuously)")
 
     # -------------------------------------------------------------- finishing
     def finish(self, write: bool = True, evidence_dir: Optional[Path] = None, quiet: bool = False) -> int:
@@ -125,7 +135,13 @@ class Report:
                 for p in f.path[:12]:
                     out.append(f"           path: {p}")
             out.append(f"VIOLATION property={self.pid} replay={replay}")
+        for e in self.analysis_errors:
+            out.append(f"  analysis-error (rule skipped): {e}")
         wall = time.time() - self.t0
+        if self.analysis_errors and not new:
+            if not quiet:
+                print("\n".join(out))
+            raise AnalysisError("; ".join(self.analysis_errors))
         if write:
             self._write_evidence(evidence_dir or (VERIF / "evidence"), wall, len(new), listed)
         if not quiet:
